@@ -100,6 +100,16 @@ impl<'ast> Visit<'ast> for BodyVisitor {
         visit::visit_expr_break(self, e);
     }
     fn visit_expr_method_call(&mut self, e: &'ast syn::ExprMethodCall) {
+        if e.method == "or_default" && e.args.is_empty() {
+            if let syn::Expr::MethodCall(inner) = &*e.receiver {
+                if inner.method == "entry" && inner.args.len() == 1 {
+                    self.nodes.push(json!({
+                        "kind": "entry_or_default", "range": rng(e.span()),
+                        "map": rng(inner.receiver.span()), "key": rng(inner.args[0].span()),
+                    }));
+                }
+            }
+        }
         if e.args.len() == 1 {
             if let syn::Expr::Closure(c) = &e.args[0] {
                 let mut has_ctrl = CtrlFinder { found: false };
